@@ -225,6 +225,8 @@ vorbis_info_residue *res0_unpack(vorbis_info *vi,oggpack_buffer *opb){
   for(j=0;j<acc;j++){
     if(info->booklist[j]>=ci->books)goto errout;
     if(ci->book_param[info->booklist[j]]->maptype==0)goto errout;
+    /* the decode loops divide by the dimension of the stage books */
+    if(ci->book_param[info->booklist[j]]->dim<1)goto errout;
   }
 
   /* verify the phrasebook is not specifying an impossible or
